@@ -756,11 +756,7 @@ def run(c):
         c.broken.append(("F5 probe", r[1]))
     else:
         reproduced, what = r[1]
-        if any(k["id"] == "F5" for k in c.known):
-            c.known_probe("F5", reproduced, what)
-        else:
-            c.extra["candidate_finding_F5"] = {"reproduced": reproduced, "what": what,
-                                               "note": "not yet listed in known_findings.jsonl; reported to the coordinator"}
+        c.known_probe("F5", reproduced, what)
     c.exhaustive = False
     c.notes.append("decision logic proved per clause; the generated models tie it to ModelicaMixin / "
                    "SimulationProblem; file bounds series (<var>_Min/_Max) are kept out of the main stream (F5)")
